@@ -20,7 +20,7 @@ Proof. exact (bool_first_letter C gen_ok). Qed.
 Theorem C08_syslog_names : forall v, single_strip C = true \/ no_double_prefix v = true ->
   parse_facility C v = match doc_syslog (doc_fac C) v with Some n => n | None => d_facility C end
   /\ parse_level C v = match doc_syslog (doc_lvl C) v with Some n => n | None => d_level C end.
-Proof. intros v D. split; [exact (syslog_facility_names C gen_ok v D)|exact (syslog_level_names C gen_ok v D)]. Qed.
+Proof. exact (syslog_names C gen_ok). Qed.
 
 (** output = name[:argument], split at the first ':'; unknown name => default output and default argument *)
 Theorem C08_output_split : forall v,
@@ -31,28 +31,19 @@ Proof. exact (output_split C gen_ok). Qed.
 Theorem C08_len_clamp : forall ds suf, forallb is_digit ds = true -> suffix_ok suf -> 1 <= digits_val ds ->
   bytelen C (ds_min C) (ds_max C) (ds_def C) (ds ++ suf) = clamp (doc_ds_min C) (doc_ds_max C) (digits_val ds * doc_factor suf)
   /\ bytelen C (log_min C) (log_max C) (log_def C) (ds ++ suf) = clamp (doc_log_min C) (doc_log_max C) (digits_val ds * doc_factor suf).
-Proof.
-  intros ds suf D S V. destruct (ok_ds C gen_ok) as [_ [A [_ [A1 [A2 _]]]]]. destruct (ok_log C gen_ok) as [_ [B [_ [B1 [B2 _]]]]].
-  rewrite <- A1, <- A2, <- B1, <- B2. split; apply (len_clamp C gen_ok); assumption.
-Qed.
+Proof. exact (len_clamp_both C gen_ok). Qed.
 
 (** never decreasing as the number grows *)
 Theorem C08_len_monotone : forall d1 d2 suf, forallb is_digit d1 = true -> forallb is_digit d2 = true -> suffix_ok suf ->
   1 <= digits_val d1 -> digits_val d1 <= digits_val d2 ->
   bytelen C (ds_min C) (ds_max C) (ds_def C) (d1 ++ suf) <= bytelen C (ds_min C) (ds_max C) (ds_def C) (d2 ++ suf)
   /\ bytelen C (log_min C) (log_max C) (log_def C) (d1 ++ suf) <= bytelen C (log_min C) (log_max C) (log_def C) (d2 ++ suf).
-Proof.
-  intros d1 d2 suf D1 D2 S V1 V2. destruct (ok_ds C gen_ok) as [_ [A _]]. destruct (ok_log C gen_ok) as [_ [B _]].
-  split; apply (len_monotone C gen_ok); assumption.
-Qed.
+Proof. exact (len_monotone_both C gen_ok). Qed.
 
 (** pinned fallback (DESIGN.md section 10): all-zero numerals and text without a leading digit keep the built-in default *)
 Theorem C08_len_zero_default : forall v, digits_val (fst (span_digits v)) = 0 ->
   bytelen C (ds_min C) (ds_max C) (ds_def C) v = doc_ds_def C /\ bytelen C (log_min C) (log_max C) (log_def C) v = doc_log_def C.
-Proof.
-  intros v Z. destruct (ok_ds C gen_ok) as [_ [A [_ [_ [_ A3]]]]]. destruct (ok_log C gen_ok) as [_ [B [_ [_ [_ B3]]]]].
-  rewrite <- A3, <- B3. split; apply (len_zero_default C gen_ok); assumption.
-Qed.
+Proof. exact (len_zero_default_both C gen_ok). Qed.
 
 (** the value shown for an option after ANY sequence of handler calls is decided by its last occurrence:
     its documented reading if parsable; otherwise the value in force (boolean) or the built-in default (others) *)
